@@ -55,3 +55,62 @@ def float_word_class(word):
     if exp == 0:
         return "zero" if frac == 0 else "denormal"
     return "normal"
+
+
+# ---------------------------------------------------------------------------------------------
+# a generic strategy of whole-product cases (compact dicts; values come from `vseed`)
+# ---------------------------------------------------------------------------------------------
+
+from hypothesis import strategies as st  # noqa: E402
+
+HEADER_OPTIONAL = product.HEADER_OPTIONAL
+
+
+@st.composite
+def instants(draw):
+    year = draw(st.integers(2014, 2049))
+    leap = year % 4 == 0
+    doy = draw(st.one_of(st.sampled_from([1, 59, 60, 365, 366 if leap else 365]), st.integers(1, 366 if leap else 365)))
+    ms = draw(st.one_of(st.sampled_from([0, 86_399_999, 43_200_000]), st.integers(0, 86_399_999)))
+    us = draw(st.one_of(st.sampled_from([0, 999]), st.integers(0, 999)))
+    return {"year": year, "doy": doy, "ms": ms, "us": us}
+
+
+@st.composite
+def product_cases(draw, max_lines=12, max_pixels=6, max_images=3, levels=("1.1", "1.5", "3.1")):
+    level = draw(st.sampled_from(list(levels)))
+    n_images = draw(st.integers(1, max_images))
+    scansar = draw(st.booleans()) and n_images > 1
+    combos = [(p, None) for p in POLS]
+    if scansar:
+        letter = draw(st.sampled_from(["B", "F"]))
+        combos = [(p, f"{letter}{n}") for n in range(1, 6) for p in POLS[:2]]
+    picked = draw(st.permutations(combos))[:n_images]
+    images = []
+    for pol, scan in picked:
+        im = {
+            "pol": pol,
+            "scan": scan,
+            "lines": draw(st.integers(1, max_lines)),
+            "pixels": draw(st.integers(1, max_pixels)),
+        }
+        blank = draw(st.lists(st.sampled_from(HEADER_OPTIONAL), unique=True, max_size=5))
+        if blank:
+            im["blank_header"] = sorted(blank)
+        images.append(im)
+    leader = {
+        "n_att": draw(st.integers(1, 6)),
+        "n_channels": draw(st.integers(1, 4)),
+        "map_projection": draw(st.booleans()) if level != "1.1" else draw(st.sampled_from([False, False, True])),
+        "designator": draw(st.sampled_from(product.DESIGNATORS)),
+        "facility_lengths": [draw(st.integers(66, 160)) for _ in range(4)],
+        "instant": draw(instants()),
+    }
+    return {
+        "level": level,
+        "images": images,
+        "leader": leader,
+        "n_file_pointers": draw(st.integers(0, 6)),
+        "policy": draw(st.sampled_from(["decoy", "decoy", "blank"])),
+        "vseed": draw(st.integers(0, 2**32 - 1)),
+    }
